@@ -627,6 +627,12 @@ impl Session {
 
         let req = HandshakeReq::from(payload.iter().copied())?;
 
+        if req.window_size == 0 {
+            // We could not even send our handshake response within a window of zero
+            warn!("RX handshake integrity failure: {:?}", req);
+            return Err(ErrorCode::InvalidData.into());
+        }
+
         let version = req.versions().min().unwrap_or(4);
 
         let mtu = if req.mtu == 0 {
@@ -637,7 +643,7 @@ impl Session {
             let mtu = if self.relaxed_mtu_nego {
                 // In the relaxed MTU negotiation mode, if the GATT MTU is not what the peer reports,
                 // we take as an MTU the minimum between our MTU and what the peer reports
-                min(min(req.mtu, gatt_mtu.unwrap_or(MIN_MTU)), MAX_MTU)
+                min(min(req.mtu, gatt_mtu.unwrap_or(MIN_MTU)), MAX_MTU).max(MIN_MTU)
             } else {
                 // We don't know our MTU or what we know is not what the other peer reports
                 // => use the minimum MTU
@@ -654,7 +660,8 @@ impl Session {
             mtu
         } else {
             // Used MTU should not be bigger than the maximum allowed
-            min(req.mtu, MAX_MTU)
+            // (nor smaller than the minimum the specification knows about)
+            req.mtu.clamp(MIN_MTU, MAX_MTU)
         };
 
         // Remove the header as we need to report back the payload MTU
@@ -683,6 +690,16 @@ impl Session {
         RecvWindow::check_handshake_integrity(&hdr)?;
 
         let resp = HandshakeResp::from(payload.iter().copied())?;
+
+        // The response carries the selected segment size (the ATT_MTU without the GATT header)
+        // and window size; everything later on is computed from them, so they must make sense
+        if resp.mtu < MIN_MTU - GATT_HEADER_SIZE as u16
+            || resp.mtu > MAX_MTU - GATT_HEADER_SIZE as u16
+            || resp.window_size == 0
+        {
+            warn!("RX handshake integrity failure: {:?}", resp);
+            return Err(ErrorCode::InvalidData.into());
+        }
 
         debug!("\n>>RCV (BTP IO) {} [{}]\n      HANDSHAKE RESP {:?}\nSelected version: {}, MTU: {}, window size: {}", address, hdr, resp, resp.version, resp.mtu, resp.window_size);
 
